@@ -378,6 +378,7 @@ func (t *Task) State() TaskState {
 // Broadcast notifies waiters of a state change. Broadcast must only
 // be called while the task's lock is held.
 func (t *Task) Broadcast() {
+	vtrace("TaskState", t, t.state)
 	if t.waitc != nil {
 		close(t.waitc)
 		t.waitc = nil
